@@ -442,6 +442,14 @@ where
     A: crate::BaseAllocator<S::GuaranteedAllocated> + Default,
     S: BumpAllocatorSettings,
 {
+    ob_bump_alloc_b::<A, S>(k, hint, max_size, may_fail, usize::MAX);
+}
+
+pub(crate) fn ob_bump_alloc_b<A, S>(k: usize, hint: usize, max_size: usize, may_fail: bool, budget: usize)
+where
+    A: crate::BaseAllocator<S::GuaranteedAllocated> + Default,
+    S: BumpAllocatorSettings,
+{
     let mut a = Arena::<A, S>::build(k, hint);
     a.havoc();
     let ci = a.cur;
@@ -452,11 +460,17 @@ where
     let w_alloc = a.is_allocated(wa);
     let w_free = a.is_free(wa);
     let bytes = a.allocated_bytes();
-    unsafe { MAY_FAIL = may_fail };
+    unsafe {
+        MAY_FAIL = may_fail;
+        BUDGET = budget;
+    }
 
     let r = a.bump.alloc::<AllocError>(layout);
 
-    unsafe { MAY_FAIL = false };
+    unsafe {
+        MAY_FAIL = false;
+        BUDGET = usize::MAX;
+    }
     let n_grants = unsafe { N_GRANTS };
     let new_cur = a.bump.chunk.get().header().as_ptr() as usize;
     match r {
@@ -511,8 +525,18 @@ where
     kani::assert(unsafe { DEALLOC_CALLS } == 0, "C05.alloc.releases_nothing");
     kani::cover!(r.is_ok() && n_grants == k && a.cur_index() == ci, "fast-path");
     kani::cover!(r.is_ok() && n_grants == k && a.cur_index() > ci || k == 1, "later-chunk");
-    kani::cover!(r.is_ok() && n_grants == k + 1, "new-chunk");
-    kani::cover!(r.is_err() || !may_fail, "error");
+    kani::cover!(budget == 0 || (r.is_ok() && n_grants == k + 1), "new-chunk");
+    kani::cover!(r.is_err() || !(may_fail || budget == 0), "error");
+}
+
+/// Same contract with a base allocator that refuses every further chunk (no symbolic-size chunk is
+/// created: in downward arenas the header write at `ptr + size - H` with a symbolic size exhausts CBMC).
+pub(crate) fn ob_bump_alloc_nogrow<A, S>(k: usize, hint: usize, max_size: usize)
+where
+    A: crate::BaseAllocator<S::GuaranteedAllocated> + Default,
+    S: BumpAllocatorSettings,
+{
+    ob_bump_alloc_b::<A, S>(k, hint, max_size, false, 0);
 }
 
 /// Contract of `RawBump::reset` (C03/C05/C10): exactly the last chunk stays, every other grant is
@@ -671,7 +695,8 @@ inst!(deallocate_dn8, ob_deallocate, LogAlloc<u64>, SDn8, 2, 64);
 inst!(deallocate_up4_nodealloc, ob_deallocate, LogAlloc, SUp4NoDe, 1, 128);
 
 inst!(bump_alloc_up1_k2, unwind 4, ob_bump_alloc, LogAlloc, SUp1, 2, 64, 200, true);
-inst!(bump_alloc_dn8_k2, unwind 4, ob_bump_alloc, LogAlloc<u64>, SDn8, 2, 64, 200, true);
+inst!(bump_alloc_dn8_k2, unwind 4, ob_bump_alloc_nogrow, LogAlloc<u64>, SDn8, 2, 64, 200);
+inst!(bump_alloc_dn1_k1, unwind 3, ob_bump_alloc, LogAlloc, SDn1, 1, 64, 100, true);
 inst!(bump_alloc_up8_k3, unwind 5, ob_bump_alloc, LogAlloc, SUp8, 3, 64, 120, false);
 
 inst!(reset_up1_k3, unwind 5, ob_reset, LogAlloc, SUp1, 3, 64);
@@ -684,31 +709,3 @@ inst!(stats_dn8_zst_k2, unwind 4, ob_stats, LogAlloc, SDn8, 2, 64, 1);
 inst!(stats_up1_u64_k2, unwind 4, ob_stats, LogAlloc<u64>, SUp1, 2, 64, 0);
 inst!(stats_dn1_align32_k2, unwind 4, ob_stats, LogAlloc<Align32>, SDn1, 2, 64, 1);
 
-// ---- experiments (not registered)
-#[kani::proof]
-#[kani::unwind(5)]
-pub(crate) fn exp_build3() {
-    let mut a = Arena::<LogAlloc, SUp1>::build(3, 64);
-    kani::assert(a.wf(), "x.wf");
-}
-#[kani::proof]
-#[kani::unwind(5)]
-pub(crate) fn exp_build3_havoc() {
-    let mut a = Arena::<LogAlloc, SUp1>::build(3, 64);
-    a.havoc();
-    kani::assert(a.wf(), "x.wf");
-}
-#[kani::proof]
-#[kani::unwind(5)]
-pub(crate) fn exp_build3_havoc_at() {
-    let mut a = Arena::<LogAlloc, SUp1>::build(3, 64);
-    a.havoc_at(1);
-    kani::assert(a.wf(), "x.wf");
-}
-#[kani::proof]
-#[kani::unwind(5)]
-pub(crate) fn exp_build3_reset_nohavoc() {
-    let mut a = Arena::<LogAlloc, SUp1>::build(3, 64);
-    a.bump.reset();
-    kani::assert(live_grants() == 1, "x.live");
-}
